@@ -74,7 +74,7 @@ SCOPE = {
                      gen="NPods = 3  PodArchs = {1,2,3,4,5,6,7,8,9,10}  " + ALL, genmod=2,
                      gen4='NPods = 4  PodArchs = {1,2,3,4,6,8,9}  Layouts = {1,2,3}  Caps = {0,1,2}  PoolSets = {1,2,3}  Modes = {"strict", "fallback"}',
                      gen4mod=4, explore=8000,
-                     dmc="NClaims = 3  " + DALL, dgen="NClaims = 3  " + DALL, dstride=1,
+                     dmc="NClaims = 3  " + DALL.replace("Slots = {0, 1, 2}", "Slots = {0, 1}"), dgen="NClaims = 3  " + DALL, dstride=1,
                      dvariants=[(v, r) for v in (0, 1, 2, 3, 4) for r in (False, True)], dexplore=8000),
 }
 
@@ -124,14 +124,16 @@ def closed_models(run, tier, dev):
     if os.environ.get("VERIF_SKIP_MODEL"):      # developer aid for mutation runs, never used by registered commands
         return []
     heap = "4g" if dev else "8g"
-    wr, wd = (4, 4) if dev else (max(2, vlib.NCPU * 5 // 8), max(2, vlib.NCPU // 4))
+    # (measured, thorough at load 50-100: Reservations 1.34M states 15 min with 10 workers, DRA 3.26M states 24 min with 4 workers)
+    wr, wd = (4, 4) if dev else (max(2, vlib.NCPU * 5 // 8), max(2, vlib.NCPU * 3 // 8 if tier.get("mc4") else vlib.NCPU // 4))
 
     def mc_resv():
         write_cfg(run, "Reservations_MC_run.cfg", tier["mc"], "SpecFast", INVS)
         run.closed_model("Reservations", "Reservations_MC_run.cfg", workers=wr, heap=heap, timeout=7000)
-        if tier.get("mc4"):
-            write_cfg(run, "Reservations_MC4_run.cfg", tier["mc4"], "SpecFast", INVS)
-            run.closed_model("Reservations", "Reservations_MC4_run.cfg", workers=wr, heap=heap, timeout=7000)
+
+    def mc4_resv():
+        write_cfg(run, "Reservations_MC4_run.cfg", tier["mc4"], "SpecFast", INVS)
+        run.closed_model("Reservations", "Reservations_MC4_run.cfg", workers=4, heap=heap, timeout=7000)
 
     def mc_dra():
         write_cfg(run, "DRA_MC_run.cfg", tier["dmc"], "Spec", DINVS, DFLAGS)
@@ -158,7 +160,7 @@ def closed_models(run, tier, dev):
         return job
 
     half = lambda t, k: dict(list(t.items())[k::2])
-    return [mc_resv, mc_dra,
+    return [mc_resv, mc_dra] + ([mc4_resv] if tier.get("mc4") else []) + [
             cov("Reservations", "Reservations_Cov_run.cfg",
                 'NPods = 2  PodArchs = {1,7,8,10}  Layouts = {1}  Caps = {0}  PoolSets = {2}  Modes = {"strict", "fallback"}', INVS, FLAGS),
             cov("DRA", "DRA_Cov_run.cfg", 'NCs = {"N1", "N2"}  NClaims = 2  Kinds = {"net", "shm2", "gpu"}  Pres = {0}  Slots = {1}', DINVS, DFLAGS),
